@@ -29,6 +29,7 @@ def vm (ch : Spec.ChainParams) (addr : Nat × Bytes) (magic msg sig : Bytes) : S
 
 def handle (op : String) (args : List String) : Option String :=
   match op, args with
+  | "c14.hist", steps :: aux => some (Driver.KeysHist.run steps aux)
   | "c14.digest", [magic, text] => some <|
       match parseText? magic, parseText? text with
       | some magic, some text =>
